@@ -1,6 +1,7 @@
 package main
 
 import (
+	"bytes"
 	"fmt"
 	"strings"
 
@@ -391,8 +392,42 @@ func c19Spaces(c *fw.Ctx) {
 		}
 		deep = append(deep, c19name{labels, s})
 	}
+	// a sixth family: names whose presentation text is far longer than their wire form (every octet of a long label
+	// needs a \DDD or \c escape): text lengths from below 255 to about 1000 characters, upper-case letters among them
+	for _, spec := range []struct {
+		big  int // number of long labels
+		blen int // their length
+		fill byte
+	}{{1, 40, 1}, {1, 61, 1}, {1, 62, 1}, {1, 63, 1}, {2, 63, 1}, {3, 63, 0xff}, {3, 57, '.'}, {1, 63, '.'}, {2, 60, '\\'}} {
+		var labels [][]byte
+		for i := 0; i < spec.big; i++ {
+			l := bytes.Repeat([]byte{spec.fill}, spec.blen)
+			l[spec.blen/2] = 'Q' // an upper-case letter deep inside the escapes
+			labels = append(labels, l)
+		}
+		labels = append(labels, []byte("WWW"), []byte("Example"), []byte("ORG"))
+		s, _, err := dns.UnpackDomainName(rn.Wire(labels), 0)
+		if err != nil {
+			panic(err)
+		}
+		deep = append(deep, c19name{labels, s})
+		low := make([][]byte, len(labels))
+		for i, l := range labels {
+			low[i] = append([]byte(nil), l...)
+			for j, c := range low[i] {
+				if c >= 'A' && c <= 'Z' {
+					low[i][j] = c + 32
+				}
+			}
+		}
+		s2, _, err := dns.UnpackDomainName(rn.Wire(low), 0)
+		if err != nil {
+			panic(err)
+		}
+		deep = append(deep, c19name{low, s2})
+	}
 	deep = append(deep, c19name{nil, "."})
-	c.Space("deep", fmt.Sprintf("%d names of 1..24, 31..34, 63..65 and 127 labels (four chains of one-octet labels sharing suffixes of 0, 4, 12 and all labels, one the upper-case twin, plus a chain of escape-bearing labels of 7..40 labels, plus the root): the unary helpers on each, CompareDomainName / IsSubDomain on all ordered pairs, TrimDomainName/AddOrigin with every name as origin of every longer name of its chain; non-trivial: more than 8 labels", len(deep)), true,
+	c.Space("deep", fmt.Sprintf("%d names of 1..24, 31..34, 63..65 and 127 labels (four chains of one-octet labels sharing suffixes of 0, 4, 12 and all labels, one the upper-case twin, plus a chain of escape-bearing labels of 7..40 labels, plus 18 names of 4..6 labels whose long labels consist of escaped octets so that the presentation text has 180..1000 characters for at most 255 wire octets, in mixed and in lower case, plus the root): the unary helpers on each, CompareDomainName / IsSubDomain on all ordered pairs, TrimDomainName/AddOrigin with every name as origin of every longer name of its chain; non-trivial: more than 8 labels", len(deep)), true,
 		func(emit func(func(*fw.R))) {
 			for i := range deep {
 				a := deep[i]
